@@ -350,7 +350,7 @@ impl Prop for C16Prop {
         vec![Section {
             name: "random",
             kind: SectionKind::Random {
-                cases: tier.pick(1_000, 30_000),
+                cases: tier.pick(1_000, 12_000),
                 maxlen: 5000,
             },
             exhaustive: false,
@@ -358,7 +358,7 @@ impl Prop for C16Prop {
         }, Section {
             name: "closures",
             kind: SectionKind::Random {
-                cases: tier.pick(400, 10_000),
+                cases: tier.pick(400, 5_000),
                 maxlen: 80,
             },
             exhaustive: false,
